@@ -2429,7 +2429,9 @@ impl Connection {
                         }
                     }
 
-                    if !self.state.is_closed() {
+                    // Retry and Version Negotiation packets carry no packet protection; they
+                    // are only accounted for once `process_decrypted_packet` has validated them
+                    if !self.state.is_closed() && packet.header.is_protected() {
                         let spin = match packet.header {
                             Header::Short { spin, .. } => spin,
                             _ => false,
@@ -2561,7 +2563,7 @@ impl Connection {
                     return Err(TransportError::PROTOCOL_VIOLATION("client sent Retry").into());
                 }
 
-                if self.total_authed_packets > 1
+                if self.total_authed_packets > 0
                             || packet.payload.len() <= 16 // token + 16 byte tag
                             || !self.crypto.is_valid_retry(
                                 self.rem_cids.active(),
@@ -2582,6 +2584,7 @@ impl Connection {
 
                 trace!("retrying with CID {}", rem_cid);
                 let client_hello = state.client_hello.take().unwrap();
+                self.on_packet_authenticated(now, SpaceId::Initial, None, None, false, false);
                 self.retry_src_cid = Some(rem_cid);
                 self.rem_cids.update_initial_cid(rem_cid);
                 self.rem_handshake_cid = rem_cid;
@@ -2745,7 +2748,7 @@ impl Connection {
                 Ok(())
             }
             Header::VersionNegotiate { .. } => {
-                if self.total_authed_packets > 1 {
+                if self.total_authed_packets > 0 {
                     return Ok(());
                 }
                 let supported = packet
